@@ -38,7 +38,21 @@ def _exact_fg(t):
 
 
 def judge(case):
+    if case.get("twin"):
+        # a tuple that compares (and hashes) EQUAL to the text but is another notation - float channels, which the library reads
+        # as unit fractions / HSLA - was parsed on the same background earlier in this process; whatever it denotes, the
+        # text itself must still be read as the 8-bit RGBA tuple it is (a parse memo keyed on the bare tuple would mix them up)
+        from cm_colors import ColorPair
+
+        t = gc.dec(case["text"])
+        tw = type(t)(float(v) for v in t[:3]) + type(t)(t[3:])
+        try:
+            ColorPair(tw, gc.dec(case["bg"]), case.get("large", False)).is_readable
+        except Exception as e:
+            raise Violation(exc_bucket(e), f"ColorPair({tw!r}, ...) raised {e!r}")
     info = _judge_one(case)
+    if case.get("twin"):
+        info.setdefault("cls", []).append("after-equal-float-twin")
     # the same text literal over ANOTHER background, then over the first again: each pair composites over its OWN background
     if case.get("bg2") is not None:
         _judge_one(dict(case, bg=case["bg2"], fix=False))
@@ -145,6 +159,13 @@ def strategy(draw):
     else:
         barg, bkind, _ = draw(gc.spell(bg, allow_translucent=False))
     case = {"text": targ, "bg": barg, "tkind": tkind, "bkind": bkind, "large": draw(st.booleans())}
+    if draw(st.integers(0, 15)) == 0:
+        # RGBA tuple whose channels are all 0 or 1 (next to black as 8-bit values, but primaries if mistaken for unit fractions),
+        # half of the time after its float twin has been parsed
+        a = draw(st.sampled_from([0.5, 0.25, 0.9, 1, 0, 0.001]))
+        case["text"] = gc.enc(tuple(draw(st.lists(st.integers(0, 1), min_size=3, max_size=3))) + (a,))
+        case["tkind"] = "rgba-tuple-01"
+        case["twin"] = draw(st.booleans())
     if draw(st.integers(0, 2)) == 0:
         bg2 = draw(st.one_of(gc.rgb(), st.sampled_from([(255, 255, 255), (0, 0, 0)])))
         case["bg2"] = draw(gc.spell(bg2, allow_translucent=False))[0]
